@@ -1170,7 +1170,10 @@ func (k *Kernel) checkVotingPrecommitViewShift(ctx context.Context, s *kState) e
 
 // saveCurrentCommittingHeader saves s.CommittingHeader to the header store.
 func (k *Kernel) saveCurrentCommittingHeader(ctx context.Context, s *kState) error {
-	proof := s.Voting.PrevCommitProof
+	// The store may retain what it is given (the in-memory store does),
+	// and the voting view's maps are cleared and reused when views are recycled,
+	// so the store must get its own copy of the proof.
+	proof := s.Voting.PrevCommitProof.Clone()
 
 	// TODO: gassert: confirm the voting proof is sufficient.
 
